@@ -709,6 +709,7 @@ func runC19(e *Env) error {
 		}
 	}
 	parallel(e.Workers, len(sjobs), func(i int) { c19Skip(e, sjobs[i]) })
+	c19Drivers(e)
 	c19CLI(e)
 	c19Rebuild(e)
 	c19NameClash(e)
